@@ -2,7 +2,7 @@
 import glob, os
 from ..common import CORPUS
 
-NTYPES = 40
+NTYPES = 42
 
 def fnv1a(s):
     h = 2166136261
@@ -10,7 +10,10 @@ def fnv1a(s):
         h = ((h ^ b) * 16777619) % (1 << 32)
     return h
 
-SHARD = {t: fnv1a("main.T%02d" % t) % 32 for t in range(NTYPES)}
+def go_type_name(t):
+    return {40: "json.RawMessage", 41: "*main.T41"}.get(t, "main.T%02d" % t)
+
+SHARD = {t: fnv1a(go_type_name(t)) % 32 for t in range(NTYPES)}
 
 def colliding_groups():
     g = {}
@@ -45,7 +48,10 @@ class Gen:
         grp = r.choice(COLL)
         self.types = list(dict.fromkeys(grp[:2] + [r.randrange(NTYPES) for _ in range(r.randint(0, 2))]))
         if focus in ("C09", "C13", "C20") or r.random() < 0.3:
-            self.types.append(r.randrange(30, NTYPES))    # a TypeNamer type whose name depends on the value
+            self.types.append(r.randrange(30, 40))    # a TypeNamer type whose name depends on the value
+        if r.random() < 0.35:
+            self.types.append(r.choice([40, 41]))     # the pre-encoded document type / the type published as a pointer
+            self.types = list(dict.fromkeys(self.types))
         self.nbodies = r.randint(2, 6)
 
     def ty(self):
